@@ -39,6 +39,7 @@ THEOREMS = [
     "Mpc.C08_init_perm_invariant",
     "Mpc.C08_parse_perm_invariant",
     "Mpc.C08_history_independent",
+    "Mpc.C08_reset_at_start_needed",
     "Mpc.C08_repeated_compilations_equal",
     "Mpc.C08_alias_resolution_observation",
     "Mpc.C08_old_init_order_dependent",
@@ -270,8 +271,18 @@ def run(ctx):
                    all(c.get(k, 0) > 0 for k in ("comparisons_cross_process", "comparisons_fresh_instance",
                                                  "comparisons_same_instance", "comparisons_history_chain")),
                    json.dumps({k: v for k, v in c.items() if k.startswith("comparisons")}))
-        ctx.oblige("model ops of all four kinds were produced (dc, ts, init, hist)",
-                   all(c.get(k, 0) > 0 for k in ("op_dc_nontrivial", "op_ts", "op_init_two_or_more_blocks", "op_hist")),
+        ctx.oblige("histories with failing compilations were run: every failure kind, every entry point",
+                   all(c.get(k, 0) > 0 for k in (
+                       "comparisons_history_with_failure", "failing_compilations_parse-error",
+                       "failing_compilations_unknown-import", "failing_compilations_undefined-name-at-start-of-main",
+                       "failing_compilations_undefined-name-at-end-of-main",
+                       "failing_compilations_error-inside-imported-function-instance",
+                       "failing_compilations_via_Compile", "failing_compilations_via_CompileFile",
+                       "failing_compilations_via_CompileSSA", "failing_compilations_via_Stream")),
+                   json.dumps({k: v for k, v in c.items() if "failing" in k or "history_with_failure" in k}))
+        ctx.oblige("model ops of all five kinds were produced (dc, ts, init, hist, fhist)",
+                   all(c.get(k, 0) > 0 for k in ("op_dc_nontrivial", "op_ts", "op_init_two_or_more_blocks", "op_hist",
+                                                 "op_fhist")),
                    json.dumps({k: v for k, v in c.items() if k.startswith("op_")}))
     ctx.coverage["rule"] = (
         "corpus = apps/garbled/examples that compile within the tier's time budget (with input sizes where main is "
@@ -279,7 +290,9 @@ def run(ctx):
         "aes/hex/hkdf, seeded generated programs importing 2-4 generated library packages (package-level const/var/"
         "make, nested imports, real packages math/hex/hkdf) and programs with two same-named packages; each compiled "
         "3x on one Compiler, 2-4x on fresh instances, once per child process (different GOMAXPROCS/GOGC), once on a "
-        "long-lived Compiler after other programs; 3 parameter variants (default, prune, prune+GMW). distinct = "
+        "long-lived Compiler after other programs, and (importing programs) after FAILING compilations of variants "
+        "of itself (parse error, unknown import, undefined name at start/end of main, error inside an imported "
+        "function instance) through Compile / CompileFile / CompileSSA / Stream and after CompileSSA of itself; 3 parameter variants (default, prune, prune+GMW). distinct = "
         "distinct dc/init/hist op lines")
     ctx.trusted += vlib.DEFAULT_TRUSTED + [
         "go/parser + go/types fact extractor in harness/cmd/c08/facts.go (source importer for the standard library)",
@@ -317,6 +330,7 @@ def run(ctx):
         "package-level variables and Compiler/Package/Func/Generator fields; the executable models reproduce on real "
         "programs the DefineConstants order, Type.String, the init-block order + anonymous numbering from the import "
         "graph alone (imports handed over in reverse order), and the labels of 3 successive compilations. Oracle: "
-        "circuit bytes and SSA listings across same-instance / fresh-instance / cross-process / history compilations; "
+        "circuit bytes and SSA listings across same-instance / fresh-instance / cross-process / history compilations "
+        "including histories with failing compilations and mixed entry points; "
         "any difference is a violation (no known finding is tolerated any more); the replay holds the program and both "
         "SSA listings.")
